@@ -21,7 +21,7 @@ TIERS = {
     # schedule runs, history runs, minimiser candidate bound
     "quick": {"sched": 2000, "hist": 2300, "min_candidates": 150, "min_classes": 3, "min_seconds": 90,
               "instr_frac": 0.12},
-    "thorough": {"sched": 40000, "hist": 40000, "min_candidates": 400, "min_classes": 12, "min_seconds": 900,
+    "thorough": {"sched": 30000, "hist": 30000, "min_candidates": 400, "min_classes": 12, "min_seconds": 900,
                  "instr_frac": 0.2},
 }
 
